@@ -539,8 +539,9 @@ fn replay(sc: &Scn, fin: &Final, style: ConnectStyle, fork: Option<Fork>, live: 
 //   O4  the styles disagree on pending claims / end observations for the same abstract history.
 // =====================================================================================================
 
-/// known-finding tags for the two pristine-code deviations of this class (see report / known_findings.txt)
-const KF3: &str = "KF-C11-3 preimage claim on the HOLDER commitment registered some blocks after that commitment confirmed is dated at the tip (provide_payment_preimage passes best_block.height to get_broadcasted_holder_claims): a reorg above the commitment drops the claim and nothing re-creates it";
+/// known-finding tag of this class (known_findings.txt).  KF-C11-3 (late preimage claim on the HOLDER commitment dated at the
+/// tip) was repaired in /repo (0461f57): its symptom before the commitment is final is now a hard, untagged failure.  KF-C11-4
+/// covers BOTH commitment kinds once funding_spend_confirmed is set (confirmed_spend_height = None => the tip).
 const KF4: &str = "KF-C11-4 preimage claim registered after the counterparty commitment reached ANTI_REORG_DELAY (funding_spend_confirmed => confirmation height None) is dated at the tip: a one-block reorg drops the claim although the commitment is irrevocably confirmed";
 
 #[derive(Clone, Copy, Debug, PartialEq)]
@@ -601,12 +602,11 @@ struct LpOut {
 	fails: Vec<String>,
 }
 
-/// the two known pristine-code deviations of this class: which (commitment side, moment) combinations they cover
-fn kf_tag(holder: bool, at: When) -> Option<&'static str> {
-	match (holder, at) {
-		(true, When::Before) => None,
-		(true, _) => Some(KF3),
-		(false, When::At(k)) if k >= ANTI_REORG_DELAY - 1 => Some(KF4),
+/// the known deviation of this class: which (commitment side, moment) combinations it covers
+fn kf_tag(_holder: bool, at: When) -> Option<&'static str> {
+	match at {
+		// k blocks after the confirmation the commitment has k+1 confirmations: irrevocable from k = ANTI_REORG_DELAY - 1 on
+		When::At(k) if k >= ANTI_REORG_DELAY - 1 => Some(KF4),
 		_ => None,
 	}
 }
@@ -1071,14 +1071,14 @@ fn gen_lps(seed: u64, thorough: bool, rng: &mut Rng) -> Vec<Lp> {
 	v
 }
 
-struct LpStats { scenarios: u64, skipped: u64, runs: u64, blocks: u64, kf3: u64, kf4: u64, late: u64 }
+struct LpStats { scenarios: u64, skipped: u64, runs: u64, blocks: u64, kf4: u64, late: u64 }
 
 fn run_lps(args: &Args, rec: &mut Rec, rng: &mut Rng, diag: &mut dyn Write) -> LpStats {
-	let mut st = LpStats { scenarios: 0, skipped: 0, runs: 0, blocks: 0, kf3: 0, kf4: 0, late: 0 };
+	let mut st = LpStats { scenarios: 0, skipped: 0, runs: 0, blocks: 0, kf4: 0, late: 0 };
 	let only: Option<usize> = std::env::var("C11_LP_ONLY").ok().and_then(|x| x.parse().ok());
 	let only_style: Option<usize> = std::env::var("C11_STYLE").ok().and_then(|x| x.parse().ok());
 	let lps = gen_lps(args.seed, args.thorough, rng);
-	let (mut kf3_reported, mut kf4_reported) = (false, false);
+	let mut kf4_reported = false;
 	let t0 = std::time::Instant::now();
 	for (li, lp) in lps.iter().enumerate() {
 		if only.map(|o| o != li).unwrap_or(false) { continue; }
@@ -1106,8 +1106,7 @@ fn run_lps(args: &Args, rec: &mut Rec, rng: &mut Rng, diag: &mut dyn Write) -> L
 			};
 			for f in out.fails.iter() {
 				// one report per (scenario, oracle text modulo style); known findings once per run
-				if f.starts_with("KF-C11-3") { st.kf3 += 1; if kf3_reported { continue; } kf3_reported = true; }
-				else if f.starts_with("KF-C11-4") { st.kf4 += 1; if kf4_reported { continue; } kf4_reported = true; }
+				if f.starts_with("KF-C11-4") { st.kf4 += 1; if kf4_reported { continue; } kf4_reported = true; }
 				else if !reported.insert(f.clone()) { continue; }
 				rec.oracle_fail(format!("{} — lp scenario {} {:?} style={:?}", f, li, lp, sty));
 			}
@@ -1118,10 +1117,10 @@ fn run_lps(args: &Args, rec: &mut Rec, rng: &mut Rng, diag: &mut dyn Write) -> L
 					let kf: Vec<(String, &'static str)> = fin.tracked.iter().filter(|t| t.node == n && t.pay != usize::MAX).filter_map(|t| kf_tag(t.holder, whens(lp)[t.pay]).map(|k| (t.oid.to_string(), k))).collect();
 					let strip = |p: &str| p.split(',').filter(|o| !o.is_empty() && !kf.iter().any(|(k, _)| k == o)).collect::<Vec<_>>().join(",");
 					if strip(&out.pending[n]) != strip(&b.pending[n]) { rec.oracle_fail(format!("O4 styles disagree on the claims pending at the rebroadcast: lp scenario {} {:?} node={} {:?}: [{}] vs {:?}: [{}]", li, lp, n, bst, b.pending[n], sty, out.pending[n])); }
-					else if out.pending[n] != b.pending[n] { if kf[0].1 == KF3 { st.kf3 += 1; } else { st.kf4 += 1; } }
+					else if out.pending[n] != b.pending[n] { st.kf4 += 1; }
 					if out.end[n] != b.end[n] {
 						let tag = if out.pending[n] != b.pending[n] && !kf.is_empty() { format!("{} — ", kf[0].1) } else { String::new() };
-						if !tag.is_empty() { if kf[0].1 == KF3 { st.kf3 += 1; if kf3_reported { continue; } kf3_reported = true; } else { st.kf4 += 1; if kf4_reported { continue; } kf4_reported = true; } }
+						if !tag.is_empty() { st.kf4 += 1; if kf4_reported { continue; } kf4_reported = true; }
 						rec.oracle_fail(format!("{}O4 styles disagree at the end: lp scenario {} {:?} node={} {:?}: [{}] vs {:?}: [{}]", tag, li, lp, n, bst, b.end[n], sty, out.end[n]));
 					}
 				},
@@ -1162,7 +1161,7 @@ fn main() {
 	let forks_per = if args.thorough { 12 } else { 5 };
 	let mut n_runs = 0u64; let mut n_groups = 0u64; let mut n_txs = 0usize; let mut n_blocks = 0usize;
 	let mut skipped = 0u64; let mut n_kf1 = 0u64; let mut n_kf2 = 0u64;
-	let lpst = if std::env::var("C11_NO_LP").is_ok() { LpStats { scenarios: 0, skipped: 0, runs: 0, blocks: 0, kf3: 0, kf4: 0, late: 0 } } else { run_lps(args, &mut rec, &mut Rng::new(args.seed.wrapping_mul(0x9E37).wrapping_add(0xC11)), &mut *diag) };
+	let lpst = if std::env::var("C11_NO_LP").is_ok() { LpStats { scenarios: 0, skipped: 0, runs: 0, blocks: 0, kf4: 0, late: 0 } } else { run_lps(args, &mut rec, &mut Rng::new(args.seed.wrapping_mul(0x9E37).wrapping_add(0xC11)), &mut *diag) };
 	let n_scn = if std::env::var("C11_LP_ONLY").is_ok() { 0 } else { n_scn };
 	let t0 = std::time::Instant::now();
 	for si in 0..n_scn {
@@ -1245,6 +1244,6 @@ fn main() {
 		}
 		let _ = writeln!(diag, "c11: scenario {} done, {} txs, {} blocks, {:.1}s", si, fin.n_txs, fin.blocks.len(), t0.elapsed().as_secs_f32());
 	}
-	rec.notes.insert("rule".into(), format!("{} seeded force-close scenarios ({} skipped), {} mined transactions over {} blocks; {} (scenario, fork shape) groups, {} fresh-copy deliveries (all 11 ConnectStyles fork-free; fork depths 1..={} incl. one depth-{} per scenario, 3 fork contents); fork groups are delivered twice: events polled after every call (compared with the model) and only at checkpoints (cross-style only); every util call of a polled run is one correspondence case (distinct by op text); known-finding hits: KF-C11-1 x{}, KF-C11-2 x{}; LATE-PREIMAGE family: {} histories ({} skipped; {} with a preimage provided >= 1 block after the commitment confirmed) = every k in 0..={} x every fork point H-2..=tip-1, {} fresh-copy deliveries over {} blocks, claim bookkeeping (creation heights) compared with the model after every call; KF-C11-3 x{}, KF-C11-4 x{}", n_scn, skipped, n_txs, n_blocks, n_groups, n_runs, ANTI_REORG_DELAY, ANTI_REORG_DELAY, n_kf1, n_kf2, lpst.scenarios, lpst.skipped, lpst.late, ANTI_REORG_DELAY + 1, lpst.runs, lpst.blocks, lpst.kf3, lpst.kf4));
+	rec.notes.insert("rule".into(), format!("{} seeded force-close scenarios ({} skipped), {} mined transactions over {} blocks; {} (scenario, fork shape) groups, {} fresh-copy deliveries (all 11 ConnectStyles fork-free; fork depths 1..={} incl. one depth-{} per scenario, 3 fork contents); fork groups are delivered twice: events polled after every call (compared with the model) and only at checkpoints (cross-style only); every util call of a polled run is one correspondence case (distinct by op text); known-finding hits: KF-C11-1 x{}, KF-C11-2 x{}; LATE-PREIMAGE family: {} histories ({} skipped; {} with a preimage provided >= 1 block after the commitment confirmed) = every k in 0..={} x every fork point H-2..=tip-1, {} fresh-copy deliveries over {} blocks, claim bookkeeping (creation heights) compared with the model after every call; KF-C11-4 x{} (either commitment kind, after final)", n_scn, skipped, n_txs, n_blocks, n_groups, n_runs, ANTI_REORG_DELAY, ANTI_REORG_DELAY, n_kf1, n_kf2, lpst.scenarios, lpst.skipped, lpst.late, ANTI_REORG_DELAY + 1, lpst.runs, lpst.blocks, lpst.kf4));
 	rec.finish();
 }
